@@ -18,7 +18,7 @@ META = {
         "datagram. Responses encrypted by the reference engine under its current time must come back decrypted "
         "with the parameters found in the message. Traced job: the authentication plug-in is replaced by a constant "
         "digest so that the symbolic SET payload stays symbolic through apply_encryption and the plug-in's XOR."),
-    "bounds": ["operations get, getnext, bulkget, set, multiset, walk (2 requests)", "context names of length 0, 1, 32, 127, 128", "MD5 and SHA-1 localisation",
+    "bounds": ["operations get, getnext, bulkget, set, multiset, walk (2 requests)", "context names of length 0, 1, 32, 127, 128", "MD5 and SHA-1 localisation", "two users sharing privacy password and engine but not the authentication hash, in both orders",
                "SET payload: OCTET STRING of 0..4 symbolic octets (traced) / table values (window)", "engine clock advancing between discovery and response"],
     "outside": ["real DES/AES plug-ins (not installed)", "plug-ins whose decrypt does not invert encrypt"],
     "stubs": ["privacy plug-in = harness stream cipher (recording)", "sender = trampoline", "get_request_id pinned", "traced job only: usm.auth.create -> constant digest"],
@@ -181,6 +181,40 @@ def make_harness(kind, traced=False, nbytes=0):
     return h
 
 
+def make_two_users():
+    """Two users with the same privacy password and engine, different authentication hashes, one after the other."""
+    def h(order, op_sel):
+        problem = None
+        with window():
+            kinds = ["md5privS", "sha1privS"] if choose(order, 0, 1) == 0 else ["sha1privS", "md5privS"]
+            op = OPS[choose(op_sel, 0, len(OPS) - 1)]
+            for kind in kinds + kinds[:1]:
+                world = C.World(kind, Database(UNIVERSE))
+                try:
+                    try:
+                        run_op(world, op, SECRETS[0])
+                        disco = ber.dec_v3_msg(world.exchanges[0][1])
+                        world.discovered = (disco.usm.boots, disco.usm.time)
+                        for idx in range(1, len(world.exchanges)):
+                            problem = check_exchange(world, idx, kind, b"")
+                            if problem:
+                                break
+                    except Exception as exc:  # noqa: BLE001
+                        fid = world.known_exception(exc)
+                        if not (fid and known(fid)):
+                            problem = "%s (user %s after %s): %s" % (type(exc).__name__, kind, kinds[0], exc)
+                finally:
+                    world.close()
+                if problem:
+                    break
+        reached()
+        if problem:
+            h.last_problem = problem
+            return False
+        return True
+    return h
+
+
 def make_traced(nbytes):
     """Mode T: the SET payload octets stay symbolic through apply_encryption and the plug-in's XOR."""
     from props.c05 import capture_request
@@ -238,6 +272,8 @@ def jobs(tier):
         out.append(Job(f"privacy-{kind}", make_harness(kind),
                        [Arg("op", 0, len(OPS) - 1), Arg("ctx", 0, len(CTX) - 1), Arg("val", 0, len(SECRETS) - 1)] + [Arg(f"o{i}", 0, 0) for i in range(4)],
                        timeout=500, mode="E/concolic-window", functions=pf, sample_every=3))
+    out.append(Job("two-users-shared-privacy-password", make_two_users(), [Arg("order", 0, 1), Arg("op", 0, len(OPS) - 1)], timeout=500,
+                   mode="E/concolic-window", functions=pf))
     for n in ((0, 2) if quick else (0, 1, 2, 4)):
         out.append(Job(f"traced-set-payload-{n}", make_traced(n), [Arg(f"o{i}", 0, 255 if i < n else 0) for i in range(4)],
                        timeout=600 if quick else 1500, mode="T", functions=pf))
